@@ -1,6 +1,145 @@
-(* C11 - the native engine is memory-safe.  Statements only (index-safety theorems are added with Model/EngNative.v). *)
-From FJ Require Import Lib.Base Spec.MachineSpec Proofs.MachineProps.
+(* C11 - the native engine is memory-safe: the index-arithmetic half.
+   Statements about Model/NativeSafe.v, the index/size model of flipjump/interpreter/_fjcore.c in which every array
+   access is checked ([OOB]) and every probe/search loop runs on explicit fuel ([NoFuel]).  A model computation that
+   "returns [Ok (out, state)]" has reported neither; [out] is [Val _] (normal return) or [Raise e] (Python exception).
+   Quantified in every theorem: the allocator oracle [al] (any allocation may fail; none exceeds PTRDIFF_MAX), the
+   overflow oracle [ov] (the value every wrapping u64 computation wraps to), the process environment [ev], the
+   callback/signal behaviour [wd] (each callback performs any list of get_word/set_word calls with arbitrary
+   addresses, then returns or raises), all stored words, all arguments (any N: the C entry points reduce mod 2^64).
+   Reference-count ownership and "cannot crash the host" are NOT statements of this file (dynamic evidence only). *)
+From FJ Require Import Lib.Base Model.NativeSafe Model.NativeSafeCase
+  Proofs.NativeSafeTbl Proofs.NativeSafeProps Proofs.NativeSafeLoops Proofs.NativeSafeApi Proofs.NativeSafeMain.
+Local Open Scope N_scope.
 
-Theorem C11_machine_total : forall ww sg s c s', step ww sg s = inr (c, s') -> c <> OutOfFuel.
-Proof. exact step_not_oof. Qed.
-Print Assumptions C11_machine_total.
+(* the well-formedness invariant is established by __init__ and preserved by every API call, in any order,
+   whatever the arguments: the call sequence never reaches OOB/NoFuel; each call returns or raises *)
+Theorem C11_no_oob_calls : forall al ov w g f k cs, valid_w w ->
+  exists outs s', do_calls al ov cs (fresh w g f k) = Ok (outs, s') /\ wf s'.
+Proof. exact C11_no_oob_calls_proof. Qed.
+Print Assumptions C11_no_oob_calls.
+
+Theorem C11_no_oob_load : forall al ov w g f k cs, valid_w w -> Forall load_call cs ->
+  exists outs s', do_calls al ov cs (fresh w g f k) = Ok (outs, s') /\ wf s'.
+Proof. exact C11_no_oob_load_proof. Qed.
+Print Assumptions C11_no_oob_load.
+
+Theorem C11_wf_preserved : forall al ov c s, wf s ->
+  exists o s', do_call al ov c s = Ok (o, s') /\ wf s'.
+Proof. exact C11_wf_preserved_proof. Qed.
+Print Assumptions C11_wf_preserved.
+
+Theorem C11_no_oob_decide_storage : forall ev al s, wf s ->
+  exists o s', mem_decide_storage ev al s = Ok (o, s') /\ wf s'.
+Proof. exact C11_no_oob_decide_storage_proof. Qed.
+Print Assumptions C11_no_oob_decide_storage.
+
+(* any number of ops of each of the three loops, from any well-formed state and any well-formed locals
+   (any ip < 2^64, a ring of the announced non-zero length or none, any shadow table below load 1/2);
+   the flat loop runs on flat storage with its cached flat_count *)
+Theorem C11_no_oob_run : forall k al ov wd fc steps l s, wf s -> wf_loc l -> loop_pre k (fshape s) fc ->
+  exists o s', loop_n steps k al ov wd fc l s = Ok (o, s') /\ wf s'
+               /\ match o with Val r => wf_runres r | Raise _ => True end.
+Proof. exact C11_no_oob_run_proof. Qed.
+Print Assumptions C11_no_oob_run.
+
+(* Memory.run as a whole: argument conversion, storage decision, dispatch, ring allocation, n ops, result *)
+Theorem C11_no_oob_api_run : forall ev al ov wd lol ip n s, wf s ->
+  exists o s', api_run ev al ov wd lol ip n s = Ok (o, s') /\ wf s'.
+Proof. exact C11_no_oob_api_run_proof. Qed.
+Print Assumptions C11_no_oob_api_run.
+
+(* the probe loops: with slots_used * 2 < slot_count (what the growth test before every probe establishes) the
+   lookup ends within slot_count steps at an in-range slot; the rehash of a full table ends too *)
+Theorem C11_probe_terminates : forall (V : Type) (dflt : V) (valid : V -> Prop) ov (t : tbl V) key,
+  wf_tbl valid t -> t_used t * 2 < t_count t ->
+  exists r, tbl_probe dflt ov t key = Ok r /\ match r with Found h _ | Empty h => h < t_count t end.
+Proof. exact C11_probe_terminates_proof. Qed.
+Print Assumptions C11_probe_terminates.
+
+Theorem C11_probe_terminates_growth : forall (V : Type) (dflt : V) (valid : V -> Prop) ov init (t : tbl V) nc,
+  wf_tbl valid t -> pow2 init -> 2 <= init -> tbl_new_count init t = Ok nc -> nc * 16 <= PTRDIFF_MAX ->
+  t_count t <= t_used t * 2 ->
+  exists t', tbl_rehash dflt ov t nc = Ok t' /\ wf_tbl valid t' /\ t_used t' * 2 < t_count t'.
+Proof. exact C11_probe_terminates_growth_proof. Qed.
+Print Assumptions C11_probe_terminates_growth.
+
+Theorem C11_get_page_total : forall al ov wa s, wf s -> wa < U64 ->
+  exists o s', mem_get_page al ov wa s = Ok (o, s') /\ wf s'.
+Proof. exact C11_get_page_total_proof. Qed.
+Print Assumptions C11_get_page_total.
+
+(* the last-ops ring: run allocates last_ops_length > 0 entries, every op writes at ring_writes % length
+   (part of C11_no_oob_run), and build_run_result's start/total/modulo arithmetic reads inside the ring *)
+Theorem C11_ring_in_range : forall l, wf_loc l -> exists out, ring_readout l = Ok out.
+Proof. exact C11_ring_in_range_proof. Qed.
+Print Assumptions C11_ring_in_range.
+
+Theorem C11_ring_allocated : forall ip len, ip < U64 -> 0 < len -> wf_loc (init_locals ip (Some (anew len 0)) len).
+Proof. exact C11_ring_allocated_proof. Qed.
+Print Assumptions C11_ring_allocated.
+
+(* overflowing address computations.
+   (1) the two overflow tests reject every wrapping range before anything is stored;
+   (2) every other wrap-capable computation (ip + width, word_address << ww, key * golden, ip + 1, ops++,
+       ring_writes++) takes its wrapped value from the arbitrary oracle ov in ALL theorems above: whatever value it
+       wraps to, no access leaves its allocation (restated for one op of any loop);
+   (3) the size/index computations whose wrap would be dangerous are [nowrap] sites of the model - a wrap there is an
+       OOB result, excluded by the same theorems. *)
+Theorem C11_no_wild_wrap :
+  (forall al start len s, U64 <= start mod U64 + len mod U64 -> api_add_segment al start len s = Ok (Raise ValueError, s))
+  /\ (forall al ov start values s, N.of_nat (length values) < SSIZE_LIM -> U64 <= start mod U64 + N.of_nat (length values) ->
+        api_set_words al ov start values s = Ok (Raise ValueError, s))
+  /\ (forall (ov : wov) k al wd fc l s, wf s -> wf_loc l -> loop_pre k (fshape s) fc ->
+        exists o s', loop_op k al ov wd fc l s = Ok (o, s') /\ wf s').
+Proof. exact C11_no_wild_wrap_proof. Qed.
+Print Assumptions C11_no_wild_wrap.
+
+(* ---------------------------------------------------------------- non-vacuity and the F1 wrap *)
+
+Example C11_fresh_wf : wf (fresh 64 true 0 0).
+Proof. apply wf_fresh. unfold valid_w. auto. Qed.
+
+(* a loaded image that is then run on flat storage: the hypotheses of C11_no_oob_run are met by a reachable state *)
+Definition ex_calls : list call :=
+  [CAddSegment 0 6; CSetWords 0 [ItInt 300; ItInt 256; ItInt 0; ItInt 0; ItInt 0; ItInt 0]; CSetWord 70000 5;
+   CRun env0 (fixed_io []) 0 0 (N.to_nat 100); CGetWord 1].
+Definition ex_state : st := match do_calls al_ok ov_c ex_calls (fresh 64 true 0 0) with Ok (_, s) => s | _ => zeroed end.
+Example C11_ex_calls_run : exists s', do_calls al_ok ov_c ex_calls (fresh 64 true 0 0) = Ok ([None; None; None; None; None], s')
+                                      /\ storage_mode s' = 3 /\ fshape s' = Some 6.
+Proof. eexists. split; [vm_compute; reflexivity|]. split; reflexivity. Qed.
+Example C11_ex_loop_pre : wf ex_state /\ loop_pre LFlat (fshape ex_state) 6 /\ wf_loc (init_locals 0 None 0).
+Proof.
+  split; [|split; [reflexivity|apply wf_init_locals; [lia|exact Logic.I]]].
+  destruct (C11_no_oob_calls al_ok ov_c 64 true 0 0 ex_calls ltac:(unfold valid_w; auto)) as (outs & s' & E & W).
+  unfold ex_state. rewrite E. exact W.
+Qed.
+
+(* a call that raises, one that overflows, one beyond the flat span: the exceptional exits are reachable *)
+Example C11_ex_overflow_rejected :
+  exists s', do_calls al_ok ov_c [CAddSegment 18446744073709551615 1; CAddSegment 18446744073709551614 1; CSetWords 18446744073709551615 [ItInt 1]]
+               (fresh 64 true 0 0) = Ok ([Some ValueError; None; Some ValueError], s').
+Proof. eexists. vm_compute. reflexivity. Qed.
+
+(* a table at load 1/2 exists and probing it is covered: 32 pages force the growth from 64 to 128 slots *)
+Example C11_ex_growth :
+  match do_calls al_ok ov_c (map (fun i => CSetWord (N.of_nat i * PAGE_WORDS) 1) (seq 0 40)) (fresh 8 true 0 0) with
+  | Ok (_, s) => t_count (m_tbl s) = 128 /\ t_used (m_tbl s) = 40
+  | _ => False
+  end.
+Proof. vm_compute. split; reflexivity. Qed.
+
+(* finding F1 (DESIGN section 6): w = 64, far segment (2^58 - 2, 2), op 0 jumps to the op in the last word of the
+   address space.  ip + width wraps to 0: the engine reads word 0 (value 192) as the jump word - a wrong RESULT
+   (the reference reports a memory error at 2^64), obtained through the ordinary bounds-tested read; with another
+   value for the wrapped sum the run ends differently and still without OOB. *)
+Definition f1_far : N := 288230376151711742.
+Definition f1_state : st :=
+  match do_calls al_ok ov_c [CAddSegment 0 4; CAddSegment f1_far 2;
+                             CSetWords 0 [ItInt 192; ItInt 18446744073709551552; ItInt 0; ItInt 0];
+                             CSetWords f1_far [ItInt 0; ItInt (f1_far * 64 + 1)]] (fresh 64 true 0 0)
+  with Ok (_, s) => s | _ => zeroed end.
+Example C11_F1_wrap_is_a_checked_read :
+  (exists s' l, api_run env0 al_ok ov_c (fixed_io []) 0 0 2 f1_state = Ok (Val (mkRunOut (Running l) [] None), s') /\ l_ip l = 192 /\ l_ops l = 2)
+  /\ (exists s' l, api_run env0 al_ok (fun _ _ => 9223372036854775808) (fixed_io []) 0 0 2 f1_state
+                   = Ok (Val (mkRunOut (Finished TERM_MEMORY_ERROR l) [] (Some 9223372036854775808)), s')).
+Proof. split; [eexists; eexists; split; [vm_compute; reflexivity|split; reflexivity]|eexists; eexists; vm_compute; reflexivity]. Qed.
